@@ -45,7 +45,7 @@ def comp(s):
 
 
 # ---- schema family ---------------------------------------------------------------------------------------------------
-def schema_ast(depth, shared, constrained, two_roots=False, loose=False):
+def schema_ast(depth, shared, constrained, two_roots=False, loose=False, overlap=False):
     rules = [{'id': '#KEY', 'name': [{'lit': 'KEY'}, {'pat': '_'}, {'pat': '_'}, {'pat': '_'}], 'cons': [], 'sign': []},
              {'id': '#anchor', 'name': [{'lit': 'site'}, {'ref': '#KEY'}], 'cons': [], 'sign': []}]
     prev = '#anchor'
@@ -53,9 +53,14 @@ def schema_ast(depth, shared, constrained, two_roots=False, loose=False):
         pat = 'u' if shared else f'u{i}'
         cons = [[{'pat': pat, 'opts': [{'lit': w} for w in IDS]}]] if constrained and i == 1 else []
         rules.append({'id': f'#l{i}', 'name': [{'lit': 'site'}, {'lit': f'l{i}'}, {'pat': pat}, {'ref': '#KEY'}], 'cons': cons,
-                      'sign': [prev]})
+                      'sign': [prev] + (['#anykey'] if overlap else [])})
         prev = f'#l{i}'
     pat = 'u' if shared else 'ud'
+    if overlap:
+        # rules that OVERLAP: every key name also matches a general key rule, which may sign the level keys - a certificate can then
+        # pass the signing check as its own signer, so nothing but the validator itself stops a retrievable loop
+        rules.append({'id': '#anykey', 'name': [{'lit': 'site'}, {'pat': '_'}, {'pat': '_'}, {'ref': '#KEY'}], 'cons': [],
+                      'sign': ['#anchor']})
     signers = [prev]
     if loose and depth >= 1:
         # a schema that (also) lets bare KEY names - which no certificate carries - sign data: what such a key locator names cannot
@@ -186,7 +191,7 @@ def _verify(sig_type, pub, signed, sig):
 
 # ---- deviations --------------------------------------------------------------------------------------------------------------
 DEVIATIONS = ['none', 'bad-name', 'forged-sig', 'substituted-key', 'kl-elsewhere', 'missing-cert', 'nack-cert', 'unsigned',
-              'digest-only', 'loop', 'wrong-signer-level', 'wrong-id', 'hmac-with-public-key', 'kl-wrong-digest', 'cert-as-packet', 'kl-truncated']
+              'digest-only', 'loop', 'wrong-signer-level', 'wrong-id', 'hmac-with-public-key', 'kl-wrong-digest', 'cert-as-packet', 'kl-truncated', 'self-loop']
 
 
 def build_packets(h, spec, store, policy):
@@ -215,6 +220,14 @@ def build_packets(h, spec, store, policy):
         # such packet can be retrieved, so the chain is not valid
         c = h.certs[d]
         out.append((dev, *h.data_packet(who, 1, kl=c['name'] + [T.enc_tlv(1, b'\x5a' * 32)])))
+    elif dev == 'self-loop':
+        # a retrievable certificate that names ITSELF as its key (self-signed, but not the anchor), under a schema whose overlapping
+        # rules let it pass the signing check: no chain through it reaches the anchor
+        if d >= 1:
+            c = h.certs[d]
+            x_name = c['name'][:-1] + [comp('selfloop')]
+            store[tuple(x_name)] = _raw_cert(x_name, K.KEYS[c['key']]['pub'], _signer(c['key'], x_name))
+            out.append((dev, *h.data_packet(who, 1, signer_level=d, kl=x_name)))
     elif dev == 'kl-truncated':
         # the key locator stops at the key name: a proper prefix of the certificate's name, itself the name of nothing
         c = h.certs[d]
@@ -362,7 +375,8 @@ def _run(sim, case, r):
     for vi, vs in enumerate(case['validators']):
         h = hiers[vs['hier'] % len(hiers)]
         sch = schema_ast(h.spec['depth'], h.spec['shared'], h.spec['constrained'], two_roots=vs.get('bad_anchor') == 'two-roots',
-                         loose=h.spec['deviation'] == 'kl-truncated' or bool(h.spec.get('loose')))
+                         loose=h.spec['deviation'] == 'kl-truncated' or bool(h.spec.get('loose')),
+                         overlap=h.spec['deviation'] == 'self-loop' or bool(h.spec.get('overlap')))
         text = L.render(sch, 0)
         try:
             checker = Checker(compile_lvs(text), {})
@@ -576,7 +590,7 @@ def _hier(draw):
         keys[draw(st.integers(0, depth))] = 'ed25519-0'
     return {'depth': depth, 'keys': keys, 'shared': draw(st.booleans()), 'constrained': draw(st.booleans()),
             'ids': draw(st.permutations(IDS)), 'deviation': draw(st.sampled_from(DEVIATIONS)), 'link': draw(st.integers(0, 4)),
-            'loose': draw(st.integers(0, 5)) == 0}
+            'loose': draw(st.integers(0, 5)) == 0, 'overlap': draw(st.integers(0, 7)) == 0}
 
 
 @st.composite
